@@ -384,6 +384,10 @@ func exec(toks []string) string {
 			return "bad-op"
 		}
 		return handle(p)
+	case "srv.ident":
+		return identExec(toks[1:])
+	case "id.text":
+		return idTextExec(toks[1:])
 	case "auth.meta":
 		if len(toks) != 2 {
 			return "bad-op"
